@@ -772,7 +772,7 @@ def check_case(case, pairs, mouts, expects, st):
                 if io[k] != e:
                     qops = [o.strip() for o in case.split("|")[1:] if o.split()[0] in "RYLQ"]
                     monitor("resolution differs from the ground truth of the generated timeline",
-                            "c10_session_by_time / c10_dlopen_by_time / c10_relocation_invariant",
+                            "c10_session_by_time / c10_dlopen_by_time / c10_relocation_invariant / c10_symfile_primary_buildid",
                             {"query": qops[k], "expected": e, "got": io[k]})
     return probs
 
@@ -933,8 +933,10 @@ def run(ctx):
                 ".sym texts (5 layout kinds x 5 on-disk styles, 35% shuffled) each queried at "
                 "{start-1,start,mid,end-1,end,end+1} of every loaded symbol + 0 + random + 2^64-1, saved and "
                 "reloaded; random in-memory tables (15% unsorted, 10% extreme sizes) saved/reloaded/queried; "
-                "random session timelines (threads, forks, execs, dlopens incl. address reuse, same-basename "
-                "modules, multi-segment maps; every 4th with equal timestamps allowed) queried through "
+                "random session timelines (threads, forks, execs, dlopens incl. address reuse, multi-segment "
+                "maps; symbol files written by the real save_module_symbol_file into the data directory or a "
+                "separate --with-syms directory, 60% with 2-4 modules sharing a basename and build-ids "
+                "all/none/mixed/same-4-prefix; every 4th with equal timestamps allowed) queried through "
                 "find_task_session/find_symtabs/session_find_dlsym/task_find_sym_addr; ASLR pairs. "
                 "distinct = distinct harness case lines",
         "cases": {"corpus": ncorpus, "special_texts": len(special_texts()), "random_texts": nlf,
@@ -945,6 +947,11 @@ def run(ctx):
         "samples": samples,
     })
     ctx.coverage.update(st)
+    scen = [c for c in cases if c.startswith("scen")]
+    ctx.coverage["symfile_selection"] = {
+        "timelines_with_syms_dir": sum("| WS 1 |" in c for c in scen),
+        "timelines_same_basename_modules": sum(c.count(hx("/libsame.so")) >= 2 for c in scen),
+        "both": sum("| WS 1 |" in c and c.count(hx("/libsame.so")) >= 2 for c in scen)}
     ctx.assumptions += [
         "libc bsearch is the midpoint loop of glibc (model = exact loop; compared on every query)",
         "qsort result is an address-sorted permutation; order inside equal-address runs is only counted",
